@@ -769,7 +769,7 @@ fn exception_with_backlog(r: &mut Rng, res: &mut CaseResult) {
 /// A delivery whose headers table nests field arrays `depth` levels deep: syntactically
 /// valid, a few bytes per level, well within frame_max, and something any publisher can
 /// send through a broker. It must arrive or be refused, not take the process down.
-fn nested_headers(depth: usize, res: &mut CaseResult) {
+fn nested_headers(depth: usize, short_int_first: bool, res: &mut CaseResult) {
     let (conn, h) = session::open_default(Reflex::default());
     let mut conn = match conn {
         Ok(c) => c,
@@ -801,7 +801,12 @@ fn nested_headers(depth: usize, res: &mut CaseResult) {
         outer.extend_from_slice(&value);
         value = outer;
     }
-    let mut table: Vec<u8> = vec![1, b'n'];
+    let mut table: Vec<u8> = Vec::new();
+    if short_int_first {
+        // a 16-bit integer the way RabbitMQ and the common clients encode it: 's' + 2 bytes
+        table.extend_from_slice(&[1, b'a', b's', 0, 5]);
+    }
+    table.extend_from_slice(&[1, b'n']);
     table.extend_from_slice(&value);
     let mut hp: Vec<u8> = Vec::new();
     hp.extend_from_slice(&60u16.to_be_bytes());
@@ -819,7 +824,7 @@ fn nested_headers(depth: usize, res: &mut CaseResult) {
     match cons.receiver().recv_timeout(W) {
         Ok(ConsumerMessage::Delivery(d)) => {
             res.obs("deliveries_observed", 1);
-            if d.properties.headers().as_ref().map(|t| t.len()) != Some(1) {
+            if d.properties.headers().as_ref().map(|t| t.len()) != Some(if short_int_first { 2 } else { 1 }) {
                 res.violate("misdelivered_content", format!("depth {}: the headers table arrived with {:?} entries", depth, d.properties.headers().as_ref().map(|t| t.len())));
             }
         }
@@ -833,20 +838,20 @@ fn nested_headers(depth: usize, res: &mut CaseResult) {
     for p in run::io_panics(&run::take_panics()) {
         res.violate("io_thread_panic", format!("depth {}: {} at {}", depth, p.msg, p.loc));
     }
-    res.sig = crate::rng::fnv_str(&format!("nested{}", depth));
+    res.sig = crate::rng::fnv_str(&format!("nested{}{}", depth, short_int_first));
     res.sample = Some(json!({"scenario": "headers table with deeply nested field arrays", "depth": depth, "frame_bytes": hp.len() + 8}));
 }
 
 pub fn run(rc: &mut RunCtx) {
     let seed = rc.seed;
-    for depth in [30usize, 400, 3000, 20000] {
-        let id = format!("nested-headers:{}", depth);
+    for (depth, short_int_first) in [(30usize, false), (400, false), (3000, false), (20000, false), (30, true), (20000, true)] {
+        let id = format!("nested-headers:{}{}", depth, if short_int_first { ":behind-short-int" } else { "" });
         if !rc.mine(&id) {
             continue;
         }
         rc.begin(&id);
         let mut res = CaseResult::new(id);
-        nested_headers(depth, &mut res);
+        nested_headers(depth, short_int_first, &mut res);
         rc.end(res);
     }
     for i in 0..rc.n(48, 1500) {
